@@ -77,6 +77,8 @@ struct Exchange {
 	int faults_fired = 0;
 	bool audited = false;
 	int sync_calls = 0;
+	uint64_t alloc_at_query = 0;
+	int script_index = -1;
 	J plan;
 };
 
@@ -119,6 +121,7 @@ struct Peer {
 	bool in_sync = false;
 	size_t sync_enter_consumed = 0;
 	int sync_faults_before = 0;
+	uint64_t sync_allocfail_before = 0;
 	bool stopping = false; // rtr_stop in progress or done; records may vanish
 	bool started = false;
 	int state_cb_last = -1;
